@@ -27,6 +27,16 @@ CLAIMED = {
   note="Lean kernel; translator readers for the .op(...) chain, the pest grammar, the Markdown table; hand model of pest's "
        "pratt_parser.rs pinned by version + SHA-256 (a dependency bump breaks the tie); triples are exhaustive only in the thorough stream.",
   technique="Lean 4 proof (decide over translated operator/doc tables) + differential correspondence", ref="DESIGN.md §6 C14"),
+ "C09": dict(
+  text="Lean 4 theorems for every length, index and optional (start, stop, step) in Int: s[i] succeeds iff -n <= i < n and then "
+       "selects position i (mod n), otherwise IndexOutOfBounds; the slyce index algorithm as driven by Slicing::exec only ever "
+       "selects valid positions (slicing cannot fail), selects nothing for step 0, and its clamped bounds equal CPython's "
+       "PySlice_AdjustIndices bounds for both step signs. Equality of the selected position *list* with CPython's range is checked "
+       "by the driver on every request (model-internal) and against CPython itself, not yet proved. Tied by a differential stream "
+       "over an exhaustive index/triple grid on arrays and multi-byte strings in folded and run-time form, plus std.len.",
+  note="Lean kernel; hand model of at.rs and slyce 0.3.1 tied by correspondence only; CPython's slicing is the direct oracle; "
+       "`as isize` assumed to be the identity (64-bit target).",
+  technique="Lean 4 proof over a hand model of at.rs/slyce + differential correspondence against CPython slicing", ref="DESIGN.md §6 C09"),
 }
 NOT_YET = "machinery for this property is not built yet in this round (planned, see DESIGN.md §6)"
 
